@@ -69,6 +69,19 @@ impl Found {
         }
     }
 
+    /// Cheap pre-check for hot paths: `false` (after counting the hit) when the class is already
+    /// recorded with a key that is not larger, so the caller can skip building the report.
+    pub fn wants(&self, fingerprint: &str, key: u64) -> bool {
+        let mut g = self.inner.lock().unwrap();
+        match g.get_mut(fingerprint) {
+            Some(e) if key >= e.1 => {
+                e.2 += 1;
+                false
+            }
+            _ => true,
+        }
+    }
+
     /// Runs `f`, converting a panic into a violation.
     pub fn guard(&self, key: u64, what: &str, decoded: impl Fn() -> String, f: impl FnOnce()) {
         if let Err((msg, file)) = vmc::catch(f) {
